@@ -13,6 +13,8 @@ import PercevalModel.Model.C20
     {"op":"maxralph","pairs":[[a,b],…],"extra":[[a,b],…]}  -> {"pairs":[[a,b],…]}
     {"op":"swap","cIdx":i,"cData":j}   -> {"first":f,"perm":[…]} | {"err":"IndexError"}
     {"op":"modemap","cIdx":i,"cData":j} -> {"map":[[k,v],…]}
+    {"op":"cqdecl","decls":[[name,size|-1],…],"refs":[[name,idx|-1],…]}
+        -> {"names":[…],"n":qubits,"idx":[k|null,…]}   (cQASM declarations: size -1 = single qubit)
 -/
 
 open Lean PM PM.Proto PM.Fock PM.SimSpec PM.SimProto PM.C20
@@ -32,6 +34,19 @@ def gateOfJson (j : Json) : Except String Gate := do
   match (← j.getArr?) with
   | #[n, q] => return { name := ← n.getStr?, qubits := ← natList q }
   | _ => throw "bad gate"
+
+def declOfJson (j : Json) : Except String Decl := do
+  match (← j.getArr?) with
+  | #[n, k] =>
+    let k ← k.getInt?
+    if k < -1 then throw "bad size"
+    return { name := ← n.getStr?, size := if k = -1 then none else some k.toNat }
+  | _ => throw "bad declaration"
+
+def refOfJson (j : Json) : Except String (String × ℤ) := do
+  match (← j.getArr?) with
+  | #[n, k] => return (← n.getStr?, ← k.getInt?)
+  | _ => throw "bad reference"
 
 def rowsToLists (rows : Array (Array GQ)) : List (List GQ) := rows.toList.map (·.toList)
 
@@ -104,6 +119,14 @@ def handle (j : Json) : Json :=
       | none => throw "IndexError"
     | "modemap" =>
       return Json.mkObj [("map", edgesToJson (createModeMap (← natOf j "cIdx") (← natOf j "cData")))]
+    | "cqdecl" =>
+      let ds ← (← arrOf j "decls").toList.mapM declOfJson
+      let refs ← (← arrOf j "refs").toList.mapM refOfJson
+      let idx := refs.map fun r => match operandIndex ds r with
+        | some k => toJson k
+        | none => Json.null
+      return Json.mkObj [("names", toJson (qubitNames ds)), ("n", toJson (qubitList ds).length),
+        ("idx", Json.arr idx.toArray)]
     | _ => throw "unknown op") with
   | .ok r => r
   | .error e => errJson e
